@@ -26,7 +26,7 @@ func (c01) Gen(rng *simrt.Rand, seed uint64, tier string) *Case {
 	if tier == "thorough" {
 		max = 100
 	}
-	c := genEvCase(rng, tier, evGenOpts{Kinds: []string{"tumbling"}, LateRows: 0.08, MaxRows: max, Adversary: true})
+	c := genEvCase(rng, tier, evGenOpts{Kinds: []string{"tumbling"}, LateRows: 0.08, MaxRows: max, Adversary: true, Burst: true})
 	c.FaultFree = c.Insts[0].Sinks[0].Fault == ""
 	return c
 }
@@ -48,7 +48,7 @@ func (c08) Gen(rng *simrt.Rand, seed uint64, tier string) *Case {
 	if tier == "thorough" {
 		max = 100
 	}
-	c := genEvCase(rng, tier, evGenOpts{Kinds: []string{"sliding"}, LateRows: 0.08, MaxRows: max, Adversary: true})
+	c := genEvCase(rng, tier, evGenOpts{Kinds: []string{"sliding"}, LateRows: 0.08, MaxRows: max, Adversary: true, Burst: true})
 	c.FaultFree = c.Insts[0].Sinks[0].Fault == ""
 	return c
 }
